@@ -117,6 +117,7 @@ RetAccept(ev) ==
               \* what C01 says of every pointer realloc returns holds for one that stayed in place, too
               /\ G("C01", "ReportedSizeAtLeastRequested", ev.size >= Len1(c.n))
               /\ G("C01", "InsideMemoryObtainedFromThePolicy", Inside(ev.p[1], ev.p[2], Len1(c.n)))
+              /\ G("C01", "AlignedToRequestRoundedUpToPowerOfTwo", ev.amod % AlignOf(Len1(c.n)) = 0)
               /\ G("C03", "RequestedBytesUnpoisoned",
                    (cfg.poison = 1 /\ cfg.trackbytes = 1 /\ ev.p[1] \in DOMAIN unp) => \A i \in ev.p[2]..(ev.p[2] + c.n - 1) : i \in unp[ev.p[1]])
             ELSE                      \* moved
